@@ -386,6 +386,102 @@ func runC09(c *core.Ctx) {
 		}
 	})
 
+	// ---------- (1d') optional parts ADDED to a valid request: attributes and children the schema allows and this SP never writes ----------
+	c.Group("authnrequest-optional-parts-added")
+	{
+		spMD2 := spMetadataFor(sp)
+		tr := true
+		spMD2.SPSSODescriptors[0].AttributeConsumingServices = []saml.AttributeConsumingService{{Index: 1, IsDefault: &tr, RequestedAttributes: []saml.RequestedAttribute{{Attribute: saml.Attribute{Name: "email", NameFormat: "urn:oasis:names:tc:SAML:2.0:attrname-format:basic"}}}},
+			{Index: 3, RequestedAttributes: []saml.RequestedAttribute{{Attribute: saml.Attribute{Name: "uid", NameFormat: "urn:oasis:names:tc:SAML:2.0:attrname-format:basic"}}}}}
+		sess := &saml.Session{ID: "s1", NameID: "alice", UserName: "alice", UserEmail: "alice@example.com", CreateTime: samlgen.T0, ExpireTime: samlgen.T0.Add(time.Hour), Index: "i1"}
+		idps := map[string]*saml.IdentityProvider{"sp-without-attribute-services": harness.NewIDP("idp1", harness.SPRegistry{spMD.EntityID: spMD}, sess), "sp-with-two-attribute-services": harness.NewIDP("idp1", harness.SPRegistry{spMD2.EntityID: spMD2}, sess)}
+		type add struct{ name, attr, val, child string }
+		var adds []add
+		for _, v := range []string{"0", "1", "3", "7", "-1", "65535", "65536", "99999999999999999999", "x", "", " 1", "1.0", "+1"} {
+			adds = append(adds, add{name: fmt.Sprintf("AttributeConsumingServiceIndex=%q", v), attr: "AttributeConsumingServiceIndex", val: v})
+		}
+		for _, v := range []string{"0", "1", "7", "-1", "99999999999999999999", "x", ""} {
+			adds = append(adds, add{name: fmt.Sprintf("AssertionConsumerServiceIndex=%q", v), attr: "AssertionConsumerServiceIndex", val: v})
+		}
+		for _, a := range []string{"ForceAuthn", "IsPassive"} {
+			for _, v := range []string{"true", "false", "1", "0", "x", ""} {
+				adds = append(adds, add{name: fmt.Sprintf("%s=%q", a, v), attr: a, val: v})
+			}
+		}
+		adds = append(adds, add{name: "ProviderName", attr: "ProviderName", val: "The \"SP\" <&>"}, add{name: "Consent", attr: "Consent", val: "urn:oasis:names:tc:SAML:2.0:consent:obtained"},
+			add{name: "Subject", child: `<saml:Subject><saml:NameID Format="urn:oasis:names:tc:SAML:1.1:nameid-format:emailAddress">bob@example.com</saml:NameID></saml:Subject>`},
+			add{name: "empty-Subject", child: `<saml:Subject/>`},
+			add{name: "Conditions", child: `<saml:Conditions NotBefore="2000-01-01T00:00:00Z" NotOnOrAfter="2100-01-01T00:00:00Z"><saml:AudienceRestriction><saml:Audience>urn:x</saml:Audience></saml:AudienceRestriction></saml:Conditions>`},
+			add{name: "empty-Conditions", child: `<saml:Conditions/>`},
+			add{name: "RequestedAuthnContext", child: `<samlp:RequestedAuthnContext Comparison="exact"><saml:AuthnContextClassRef>urn:oasis:names:tc:SAML:2.0:ac:classes:X509</saml:AuthnContextClassRef></samlp:RequestedAuthnContext>`},
+			add{name: "empty-RequestedAuthnContext", child: `<samlp:RequestedAuthnContext/>`},
+			add{name: "Scoping", child: `<samlp:Scoping ProxyCount="0"><samlp:IDPList><samlp:IDPEntry ProviderID="urn:idp"/></samlp:IDPList><samlp:RequesterID>urn:r</samlp:RequesterID></samlp:Scoping>`},
+			add{name: "empty-Scoping", child: `<samlp:Scoping/>`},
+			add{name: "Extensions", child: `<samlp:Extensions><x:y xmlns:x="urn:x">z</x:y></samlp:Extensions>`},
+			add{name: "empty-NameIDPolicy-second", child: `<samlp:NameIDPolicy/>`})
+		for _, idpName := range []string{"sp-without-attribute-services", "sp-with-two-attribute-services"} { // (a fixed order: every worker enumerates the same cases)
+			idp2 := idps[idpName]
+			for ai := range adds {
+				for bi := ai; bi < len(adds); bi++ {
+					if bi != ai && !(strings.HasPrefix(adds[ai].name, "AttributeConsumingServiceIndex") && adds[bi].child != "") {
+						continue // each addition alone; an attribute-service index also next to each added child
+					}
+					for _, enc := range []string{"GET", "POST"} {
+						idpName, idp2, a, b, enc, alone := idpName, idp2, adds[ai], adds[bi], enc, ai == bi
+						key := fmt.Sprintf("authnreq-added/%s/%s/%s", idpName, enc, a.name)
+						if !alone {
+							key += "+" + b.name
+						}
+						c.Case(key, func(t *core.T) {
+							t.NonTrivial()
+							ar, err := sp.MakeAuthenticationRequest(samlgen.IDPSSO, saml.HTTPRedirectBinding, saml.HTTPPostBinding)
+							if err != nil {
+								t.Fail("C09/harness/make-authn-request", "%v", err)
+								return
+							}
+							el := ar.Element()
+							for _, x := range []add{a, b} {
+								if x.attr != "" {
+									el.RemoveAttr(x.attr)
+									el.CreateAttr(x.attr, x.val)
+								} else if x.child != "" {
+									frag := etree.NewDocument()
+									if err := frag.ReadFromString(`<x xmlns:samlp="` + samlgen.NSProtocol + `" xmlns:saml="` + samlgen.NSAssertion + `">` + x.child + `</x>`); err == nil {
+										for _, ch := range frag.Root().ChildElements() {
+											el.AddChild(ch.Copy())
+										}
+									}
+								}
+								if alone {
+									break
+								}
+							}
+							doc := samlgen.Doc(el)
+							mk := func() *http.Request { return idpRequest(enc, doc, "rs") }
+							_, pan := anyContract(t, "IdpAuthnRequest.Validate", "request-with-optional-parts", func() (bool, error) {
+								req, err := saml.NewIdpAuthnRequest(idp2, mk())
+								if err != nil {
+									return false, err
+								}
+								err = req.Validate()
+								return err == nil, err
+							})
+							if pan {
+								t.Input("request_xml", string(doc))
+							}
+							_, p := guard(func() error { w := httptest.NewRecorder(); idp2.ServeSSO(w, mk()); return nil })
+							t.Impl(1)
+							if p != "" {
+								t.Fail("C09/ServeSSO/request-with-optional-parts/panic@"+p[strings.LastIndex(p, "@")+1:], "ServeSSO panicked: %s", p)
+								t.Input("request_xml", string(doc))
+							}
+						})
+					}
+				}
+			}
+		}
+	}
+
 	// ---------- (1e) metadata parts ----------
 	c.Group("metadata-part-subsets")
 	mdParts := []c09Part{attrPart(".", "entityID"), attrPart(".", "validUntil"), elPart("./SPSSODescriptor"), elPart("./SPSSODescriptor/KeyDescriptor"), attrPart("./SPSSODescriptor/KeyDescriptor", "use"),
